@@ -23,7 +23,7 @@ SKIPPED = object()
 STRINGS = ['', 'a', 'abc', 'Hello World', 'héllo', 'ÀÉÎ', 'ß', 'straße', 'a%20b', '%41%42', 'a+b', '100%', '%zz', '%C3%A9', '%E9', 'x-y-z', 'arn:aws:s3:::bucket',
            '12', '-7', '+3', '007', '1.5', 'abc12', 'true', 'TRUE', 'False', 'yes', '2024-01-01T00:00:00Z', '2024-01-01T00:00:00+05:30', 'not a date', '{"a": [1, 2]}',
            '[1, "x", null]', '{"a": ', '9223372036854775807', '9223372036854775808', 'ǆ', 'İ']
-OTHERS = [0, 5, -3, 2.5, -1.5, -0.25, -2.0, -7.9, 0.99, 1e10, True, False, None, [], ['a', 'b'], {'k': 'v'}, ['a', 1],
+OTHERS = [0, 5, -3, 9, 8, 1, 10, -1, 2.5, -1.5, -0.25, -2.0, -7.9, 0.99, 1e10, True, False, None, [], ['a', 'b'], {'k': 'v'}, ['a', 1],
           2147483647, 2147483648, 5000000000, -4294967296, 4294967296, 9007199254740992, -2147483649]     # integers beyond i32 (and at 2^53)
 
 
@@ -95,6 +95,17 @@ def ref(fn, v, extra=()):
         if isinstance(v, float):
             return None          # Rust float formatting: not used as an expectation
         return SKIPPED
+    if fn == 'parse_char':
+        # observed through parse_string(parse_char(v)): a digit 0..9 or a one-byte string gives that character; other integers and
+        # longer strings are errors; the empty string and values of other types are skipped
+        if isinstance(v, bool) or v is None or isinstance(v, (list, dict, float)):
+            return SKIPPED
+        if isinstance(v, int):
+            return str(v) if 0 <= v <= 9 else ERR
+        b = v.encode('utf-8')
+        if len(b) > 1:
+            return ERR
+        return v if len(b) == 1 else SKIPPED
     if fn == 'json_parse':
         if not isinstance(v, str):
             return SKIPPED
@@ -123,12 +134,14 @@ def call_text(fn, argq, extra):
         return 'substring(%s, %d, %d)' % (argq, extra[0], extra[1])
     if fn == 'regex_replace':
         return 'regex_replace(%s, %s, %s)' % (argq, lit(extra[0]), lit(extra[1]))
+    if fn == 'parse_char':
+        return 'parse_string(parse_char(%s))' % argq
     return '%s(%s)' % (fn, argq)
 
 
 def single_value_cases(ctx, thorough):
     rng = random.Random(ctx.seed * 601 + 18)
-    fns = ['to_upper', 'to_lower', 'url_decode', 'substring', 'regex_replace', 'parse_int', 'parse_float', 'parse_boolean', 'parse_string', 'json_parse', 'parse_epoch']
+    fns = ['to_upper', 'to_lower', 'url_decode', 'substring', 'regex_replace', 'parse_int', 'parse_float', 'parse_boolean', 'parse_string', 'parse_char', 'json_parse', 'parse_epoch']
     cases = []
     for fn in fns:
         vals = STRINGS + OTHERS
